@@ -119,7 +119,7 @@ pub fn check_stream(ls: &LangSet, code: &str, toks: &[IdTok], t: f64) -> (usize,
 }
 
 pub fn run(ctx: &Ctx) -> Outcome {
-    let n_streams = ctx.n(140_000, 4_000_000);
+    let n_streams = ctx.n(700_000, 12_000_000);
     let rep = run_sharded(ctx, |w, nw, rep| {
         let ls = LangSet::new();
         let mut rng = Rng::derive(ctx.seed, "C06", w as u64);
